@@ -245,6 +245,29 @@ func c13Run(c *core.Ctx) {
 			}
 		}
 	}
+	// TSV tables whose cells hold commas in a ragged way (so that the CSV
+	// reading of the same bytes aborts in the middle and TSV must still win)
+	for r := 3; r <= 5; r++ {
+		for at := 0; at < r; at++ {
+			for _, cell := range []string{"a,b", "x,y,z", ","} {
+				if !c.Next() || c.Expired() {
+					continue
+				}
+				rows := make([][]string, r)
+				for i := range rows {
+					rows[i] = []string{"p", "q"}
+					if i == at {
+						rows[i] = []string{cell, "q"}
+					}
+				}
+				for _, eol := range []string{"\n", "\r\n"} {
+					for _, final := range []bool{true, false} {
+						runPos(build(rows, "\t", eol, final), "text/tab-separated-values", "P1:tsv-with-ragged-commas")
+					}
+				}
+			}
+		}
+	}
 	// row-uniform larger tables: every row pattern (a c-tuple) repeated r times,
 	// plus alternation of two patterns
 	for cc := 2; cc <= 4; cc++ {
